@@ -185,6 +185,11 @@ def base_prog(callee_kind, cluster, argpass=False):
     # "explicit-empty": the callee's explicit version is the empty string
     D = mkfunc("D", kind="explicit" if callee_kind.startswith("explicit") else callee_kind,
                version=VERS.get(callee_kind), rich=False, cluster=cluster)
+    if argpass == "wrapped-root":
+        # the caller carries a plain functools.wraps decorator on top of the memento decorator: the module attribute R is
+        # the wrapper, the memento function is R.__wrapped__
+        R["wrapped_def"] = True
+        return {"funcs": [R, D], "vars": {}}
     if argpass:
         # the evolving function is handed to a middle function as an ARGUMENT: stored argument lists name its version
         R["calls"] = [{"target": "M", "form": "passfn", "fn": "D", "arg": 1}]
@@ -199,7 +204,7 @@ def apply_step(P, step, base):
     Q = copy.deepcopy(P)
     fm = {f["name"]: f for f in Q["funcs"]}
     R = fm["R"]
-    argpass = "fn" in R["calls"][0]
+    argpass = "fn" in R["calls"][0]  # (the callee is handed on as an argument)
     tgt = R["calls"][0]["fn"] if argpass else R["calls"][0]["target"]
     D = fm.get(tgt)
     if step == "restore":
@@ -238,7 +243,7 @@ def apply_step(P, step, base):
     return Q
 
 
-def _c_child(root, store, cluster, first):
+def _c_child(root, store, cluster, first, list_first=False):
     import importlib
     import sys
 
@@ -248,7 +253,7 @@ def _c_child(root, store, cluster, first):
     farm.set_env(store, ("vfc", "other", "vf"))
     sys.path.insert(0, root)
     a = importlib.import_module("vfp.a")
-    return _observe(a, m, cluster)
+    return _observe(a, m, cluster, list_first)
 
 
 def _listing(m, cl):
@@ -257,15 +262,22 @@ def _listing(m, cl):
     return sorted((ref.qualified_name, len(storage.list_mementos(ref))) for ref in m.list_memoized_functions(cl))
 
 
-def _observe(a, m, cluster):
+def _observe(a, m, cluster, list_first=False):
     obs = {}
+    if list_first:
+        # the store is listed before anything is read (names are then first resolved without the recorded parameter names)
+        try:
+            obs["pre_listed"] = [list(x) for x in _listing(m, cluster) + _listing(m, "other")]
+        except Exception as e:
+            obs["pre_listed"] = "EXC:%s:%s" % (type(e).__name__, str(e)[:100])
     audit.bodies_reset()
     try:
         obs["value"] = farm.jsonable(a.R(1))
     except Exception as e:
         obs["value"] = "EXC:%s:%s" % (type(e).__name__, str(e)[:100])
     obs["bodies"] = [b[0] for b in audit.bodies()]
-    for name, fn in (("memento", lambda: a.R.memento(1)), ("list_mementos", lambda: a.R.list_mementos()),
+    Rf = a.R if hasattr(a.R, "list_mementos") else a.R.__wrapped__  # (the memento function behind a plain decorator)
+    for name, fn in (("memento", lambda: Rf.memento(1)), ("list_mementos", lambda: Rf.list_mementos()),
                      ("list_functions", lambda: m.list_memoized_functions(cluster)),
                      ("list_functions_other", lambda: m.list_memoized_functions("other"))):
         try:
@@ -317,7 +329,7 @@ def _observe(a, m, cluster):
     return obs
 
 
-def _c_inproc_child(top, store, cluster, progs):
+def _c_inproc_child(top, store, cluster, progs, list_first=False):
     """One process: load edition 0, observe, then apply every later edition in place and observe."""
     import importlib
     import sys
@@ -330,7 +342,7 @@ def _c_inproc_child(top, store, cluster, progs):
     progen.write_pkg(progs[0], root)
     sys.path.insert(0, root)
     a = importlib.import_module("vfp.a")
-    out = [_observe(a, m, cluster)]
+    out = [_observe(a, m, cluster, list_first)]
     for k in range(1, len(progs)):
         p0, p1 = progs[k - 1], progs[k]
         n0 = {f["name"] for f in p0["funcs"]}
@@ -339,14 +351,15 @@ def _c_inproc_child(top, store, cluster, progs):
             if hasattr(a, gone):
                 delattr(a, gone)
         farm.apply_delta(p0, p1, {"a": a, "b": None}, root, False, "reexec")
-        out.append(_observe(a, m, cluster))
+        out.append(_observe(a, m, cluster, list_first))
     return out
 
 
 def part_c(args):
     callee_kind, cluster, steps, mode, argpass = args
-    if mode == "inproc":
+    if mode.startswith("inproc"):
         return part_c_inproc(args)
+    lf = mode.endswith("-lf")
     top = scratch_dir("c12c")
     out = {"evaluations": 1, "states": 1, "transitions": len(steps), "traces": 1, "violations": [], "outcomes": []}
     try:
@@ -354,7 +367,7 @@ def part_c(args):
         P = base
         store = os.path.join(top, "store")
         progen.write_pkg(P, os.path.join(top, "e0"))
-        o0 = farm.fork_call(_c_child, os.path.join(top, "e0"), store, cluster, True)
+        o0 = farm.fork_call(_c_child, os.path.join(top, "e0"), store, cluster, True, lf)
         want = o0["value"]
         if isinstance(want, str) and want.startswith("EXC") or o0["bodies"] != (["R", "M", "D"] if argpass is True else ["R", "D"]):
             # (never on the unchanged tree: the very first run of the pair, before any evolution step)
@@ -370,13 +383,13 @@ def part_c(args):
                 return out
             root = os.path.join(top, "e%d" % (k + 1))
             progen.write_pkg(P, root)
-            o = farm.fork_call(_c_child, root, store, cluster, False)
+            o = farm.fork_call(_c_child, root, store, cluster, False, lf)
             bad = judge_c(o, want, prev, o0, "recluster" in steps[:k + 1])
             prev = o
             if bad:
-                sig = "evolve|%s|callee:%s%s|step:%s|%s" % (_cl(cluster), callee_kind, {True: "+as-argument", "modb": "+in-second-module", "ppartial": "+through-positional-partial"}.get(argpass, ""), st, bad[0])
+                sig = "evolve|%s|callee:%s%s|step:%s|%s%s" % (_cl(cluster), callee_kind, VARIANT.get(argpass, ""), st, bad[0], "|listed-first" if lf else "")
                 out["violations"].append((sig, bad[1] + "\ncallee kind=%s cluster=%s passed-as-argument=%s history=%s" % (callee_kind, cluster, argpass, list(steps[:k + 1])),
-                                          {"part": "C", "callee": callee_kind, "cluster": cluster, "steps": list(steps[:k + 1]), "argpass": argpass}))
+                                          {"part": "C", "callee": callee_kind, "cluster": cluster, "steps": list(steps[:k + 1]), "argpass": argpass, "mode": mode}))
                 break
         out["outcomes"].append("C:%s:%s:%s:%s" % (callee_kind, cluster, steps, argpass))
     except farm.ChildFailed as e:
@@ -384,6 +397,9 @@ def part_c(args):
     finally:
         rm(top)
     return out
+
+
+VARIANT = {True: "+as-argument", "modb": "+in-second-module", "ppartial": "+through-positional-partial", "wrapped-root": "+caller-behind-plain-decorator"}
 
 
 def _cl(cluster):
@@ -395,6 +411,8 @@ def judge_c(o, want, prev, first, moved=False):
         return ("not-served", "caller() gave %r, stored result is %r" % (o["value"], want))
     if o["bodies"]:
         return ("recomputed", "caller() ran bodies %s although its own version is current" % o["bodies"])
+    if isinstance(o.get("pre_listed"), str):
+        return ("listing-raised", "listing the functions and their mementos (before anything was read) raised %s" % o["pre_listed"][4:])
     for name in ("memento", "list_mementos", "list_functions", "list_functions_other"):
         if o[name].startswith("EXC"):
             return ("%s-raised" % name, "%s raised %s" % (name, o[name][4:]))
@@ -432,7 +450,8 @@ def judge_c(o, want, prev, first, moved=False):
 
 
 def part_c_inproc(args):
-    callee_kind, cluster, steps, _, argpass = args
+    callee_kind, cluster, steps, mode, argpass = args
+    lf = mode.endswith("-lf")
     top = scratch_dir("c12ci")
     out = {"evaluations": 1, "states": 1, "transitions": len(steps), "traces": 1, "violations": [], "outcomes": []}
     try:
@@ -444,7 +463,7 @@ def part_c_inproc(args):
                 out["evaluations"] = 0
                 return out
             progs.append(nxt)
-        obs = farm.fork_call(_c_inproc_child, top, os.path.join(top, "store"), cluster, progs)
+        obs = farm.fork_call(_c_inproc_child, top, os.path.join(top, "store"), cluster, progs, lf)
         want = obs[0]["value"]
         if obs[0]["bodies"] != (["R", "M", "D"] if argpass is True else ["R", "D"]) or (isinstance(want, str) and want.startswith("EXC")):
             out["violations"].append(("evolve-inproc|%s|callee:%s|step:none|first-run-wrong" % (_cl(cluster), callee_kind),
@@ -454,9 +473,9 @@ def part_c_inproc(args):
         for k in range(1, len(obs)):
             bad = judge_c(obs[k], want, obs[k - 1], obs[0], "recluster" in steps[:k])
             if bad:
-                sig = "evolve-inproc|%s|callee:%s%s|step:%s|%s" % (_cl(cluster), callee_kind, {True: "+as-argument", "modb": "+in-second-module", "ppartial": "+through-positional-partial"}.get(argpass, ""), steps[k - 1], bad[0])
+                sig = "evolve-inproc|%s|callee:%s%s|step:%s|%s%s" % (_cl(cluster), callee_kind, VARIANT.get(argpass, ""), steps[k - 1], bad[0], "|listed-first" if lf else "")
                 out["violations"].append((sig, bad[1] + "\ncallee kind=%s cluster=%s passed-as-argument=%s in-process history=%s" % (callee_kind, cluster, argpass, list(steps[:k])),
-                                          {"part": "C", "callee": callee_kind, "cluster": cluster, "steps": list(steps[:k]), "inproc": True, "argpass": argpass}))
+                                          {"part": "C", "callee": callee_kind, "cluster": cluster, "steps": list(steps[:k]), "inproc": True, "argpass": argpass, "mode": mode}))
                 break
         out["outcomes"].append("Ci:%s:%s:%s:%s" % (callee_kind, cluster, steps, argpass))
     except farm.ChildFailed as e:
@@ -502,6 +521,10 @@ def run(ctx):
                     for steps in itertools.product(STEPS, repeat=n):
                         tasks.append((kind, cluster, steps, "xproc", argpass))
                         tasks.append((kind, cluster, steps, "inproc", argpass))
+                        if n == 1 or thorough and n == 2:
+                            # the same history with the store listed before anything is read in each process / after each step
+                            tasks.append((kind, cluster, steps, "xproc-lf", argpass))
+                            tasks.append((kind, cluster, steps, "inproc-lf", argpass))
             if kind in ("memento", "explicit", "explicit-colons"):
                 for steps in itertools.product([s_ for s_ in STEPS if s_ != "plain"], repeat=1):
                     tasks.append((kind, cluster, steps, "xproc", "ppartial"))
@@ -510,6 +533,11 @@ def run(ctx):
                 for n in (1, 2):
                     for steps in itertools.product(STEPS_MODB, repeat=n):
                         tasks.append((kind, cluster, steps, "xproc", "modb"))
+            if kind in ("memento", "explicit") and cluster != "vf":
+                for n in (1, 2) if thorough else (1,):
+                    for steps in itertools.product(STEPS, repeat=n):
+                        tasks.append((kind, cluster, steps, "xproc", "wrapped-root"))
+                        tasks.append((kind, cluster, steps, "inproc", "wrapped-root"))
     ctx.merge(pmap(part_c, tasks, chunksize=2))
     ctx.extra["parse_strings"] = len(va) * 16
     ctx.extra["store_versions"] = len(vb)
@@ -528,7 +556,8 @@ def replay(ctx, art):
     elif a["part"] == "B":
         r = part_b(([a["version"]], a["backend"]))
     else:
-        r = part_c((a["callee"], a["cluster"], tuple(a["steps"]), "inproc" if a.get("inproc") else "xproc", a.get("argpass") if a.get("argpass") in ("modb", "ppartial") else bool(a.get("argpass"))))
+        r = part_c((a["callee"], a["cluster"], tuple(a["steps"]), a.get("mode") or ("inproc" if a.get("inproc") else "xproc"),
+                    a.get("argpass") if a.get("argpass") in ("modb", "ppartial", "wrapped-root") else bool(a.get("argpass"))))
     for v in r["violations"]:
         print(v[0], "\n", v[1])
     print("REPLAY property=C12 result=%s" % bool(r["violations"]))
